@@ -1071,7 +1071,8 @@ impl<'a, I: HInput<'a>, E: HErr<'a, I>> Builder<'a, I, E> {
                         second!(self.sep(self.g(a)?, self.g(sep)?, *lo, *hi, *lead, *trail))
                     }
                     IT::IOrNot(a) => second!(self.g(a)?.or_not()),
-                    _ => unsupported("IThen: the first iterable must be IRep, ISep or IOrNot"),
+                    IT::IIntoIter(a) => second!(self.g(a)?.map(val_items).into_iter()),
+                    _ => unsupported("IThen: the first iterable must be IRep, ISep, IOrNot or IIntoIter"),
                 }
             }
             IT::IThen(..) => unsupported("IMap/IMapWith over IThen"),
